@@ -110,6 +110,24 @@ func c29Elections(m *memRig, checks *int) {
 }
 
 func refused(m *memRig, prop, sig string, it *injected, what string) {
+	// proposal path first (half of the variants that join an open round): the chain's member announces
+	// the same snapshot, uncertified, to the real nodes and runs the signing round; no real node may
+	// answer with a commitment or a response
+	if it != nil && !m.purge && m.proposalShare > 0 && m.rng.Chance(m.proposalShare) && !m.c.Halt {
+		if leader := m.identOf(it.snap.NodeId); leader != nil {
+			s := copySnapshot(it.snap)
+			s.Signature = nil
+			txs := append([]*common.VersionedTransaction{it.tx}, it.extra...)
+			if b := m.proposeViaCosi(leader, s, txs, 2500*time.Millisecond); b != nil {
+				m.r.out.Faults["byz.forbidden_proposal."+sig]++
+				m.r.out.Evals++
+				if b.realC > 0 || b.realR > 0 {
+					m.c.Violate(prop, "forbidden-proposal-answered:"+sig, fmt.Sprintf("%d real nodes answered the announcement of snapshot %s with a commitment and %d the challenge with a response: %s", b.realC, it.snap.Hash.String()[:8], b.realR, what), nil)
+					return
+				}
+			}
+		}
+	}
 	where := m.refuseCandidate(it, 2500*time.Millisecond)
 	if where == -2 {
 		m.r.out.Probes["variant_not_buildable:"+sig]++
@@ -136,6 +154,7 @@ func (m *memRig) otherMember(not crypto.Hash) crypto.Hash {
 
 func c29Variants(m *memRig, kind string) {
 	c := m.c
+	m.proposalShare = 0.5
 	switch kind {
 	case "mint":
 		m.beforeMint = c29MintVariants(m)
@@ -231,6 +250,7 @@ func c28OlderPledge(m *memRig) {
 
 func c28Variants(m *memRig, kind string) {
 	c := m.c
+	m.proposalShare = 0.5
 	switch kind {
 	case "mint":
 		m.beforeMint = c28MintVariants(m)
